@@ -182,10 +182,19 @@ func floatJ(f float64) *FloatJ {
 
 func convertSlice[S, D signal.SignalTypes](conv func(*signal.Buffer[S], *signal.Buffer[D]) int, in []S) []D {
 	n := len(in)
-	src := signal.Alloc[S](signal.Allocator{Channels: 1, Length: n, Capacity: n})
-	dst := signal.Alloc[D](signal.Allocator{Channels: 1, Length: n, Capacity: n})
+	// interleave over 1..3 channels (whatever divides the input) and start from a dirty destination, so
+	// that a sample the function fails to convert cannot pass as a converted one
+	ch := 1
+	if n%2 == 0 && n > 0 {
+		ch = 2
+	} else if n%3 == 0 && n > 0 {
+		ch = 3
+	}
+	src := signal.Alloc[S](signal.Allocator{Channels: ch, Length: n / ch, Capacity: n / ch})
+	dst := signal.Alloc[D](signal.Allocator{Channels: ch, Length: n / ch, Capacity: n / ch})
 	for i, v := range in {
 		src.SetSample(i, v)
+		dst.SetSample(i, D(85-43*(i%2)))
 	}
 	conv(src, dst)
 	out := make([]D, n)
